@@ -176,7 +176,9 @@ def run(repo: Repo) -> Result:
                 if any(isinstance(p, ast.Expr) and p.value is n for p in ast.walk(f.node)):
                     continue
                 hit = [frag for frag in DELIM_FRAGMENTS if frag in n.value]
-                single = n.value in ("{", "}", "%", "#") and fq.endswith(("__init__", "_tokenize_template", "tokenize"))
+                # ("#" on its own is the inline comment tag's *name*, fixed by the language — not a
+                # configurable delimiter; the comment delimiters are caught as `{#` / `#}` fragments)
+                single = n.value in ("{", "}", "%") and fq.endswith(("__init__", "_tokenize_template", "tokenize"))
                 if hit or single:
                     key = f"{fq}|{n.value}"
                     res.ob(f"literal:{key}")
@@ -432,39 +434,48 @@ def _check_marker(repo: Repo, res: Result) -> None:
             if isinstance(n, ast.Call) and callee_name(n) == "partial":
                 plumb.append((n, dict(env)))
 
-    def run_block(body, env, conds):
+    def run_block(body, states):
+        """all-paths run: ``states`` is a list of (environment, conditions); an ``if`` forks every
+        state, and the statements after it run once per resulting state (a name bound differently in
+        the two branches keeps its branch's value on that branch's path)"""
         for st in body:
-            if isinstance(st, ast.If):
-                t = text(st.test)
-                run_block(st.body, dict(env), conds + [(t, derived(st.test, env))])
-                run_block(st.orelse, dict(env), conds + [(f"not ({t})", derived(st.test, env))])
-                # names assigned in either branch are unknown afterwards unless equal: keep it
-                # simple — continue with the environment of the fall-through of the body
-                for sub in st.body + st.orelse:
-                    if isinstance(sub, (ast.Assign, ast.AugAssign)):
-                        tg = sub.targets[0] if isinstance(sub, ast.Assign) else sub.target
-                        if isinstance(tg, ast.Name):
-                            env.pop(tg.id, None)
-                continue
-            if isinstance(st, ast.Assign) and len(st.targets) == 1:
-                scan(st.value, env, conds)
-                if isinstance(st.targets[0], ast.Name):
-                    v = ev(st.value, env)
-                    if v is not None:
-                        env[st.targets[0].id] = v
+            nxt = []
+            for env, conds in states:
+                if isinstance(st, ast.If):
+                    t = text(st.test)
+                    d = derived(st.test, env)
+                    nxt += run_block(st.body, [(dict(env), conds + [(t, d)])])
+                    nxt += run_block(st.orelse, [(dict(env), conds + [(f"not ({t})", d)])])
+                    continue
+                if isinstance(st, (ast.Return, ast.Raise)):
+                    scan(st, env, conds)
+                    continue
+                if isinstance(st, ast.Assign) and len(st.targets) == 1:
+                    scan(st.value, env, conds)
+                    if isinstance(st.targets[0], ast.Name):
+                        v = ev(st.value, env)
+                        if v is not None:
+                            env[st.targets[0].id] = v
+                        else:
+                            env.pop(st.targets[0].id, None)
+                    nxt.append((env, conds))
+                    continue
+                if isinstance(st, ast.AugAssign) and isinstance(st.target, ast.Name) and isinstance(st.op, ast.Add):
+                    a, b = env.get(st.target.id), ev(st.value, env)
+                    if isinstance(a, str) and isinstance(b, str) and a != "<marker>":
+                        env[st.target.id] = a + b
                     else:
-                        env.pop(st.targets[0].id, None)
-                continue
-            if isinstance(st, ast.AugAssign) and isinstance(st.target, ast.Name) and isinstance(st.op, ast.Add):
-                a, b = env.get(st.target.id), ev(st.value, env)
-                if isinstance(a, str) and isinstance(b, str) and a != "<marker>":
-                    env[st.target.id] = a + b
-                else:
-                    env.pop(st.target.id, None)
-                continue
-            scan(st, env, conds)
+                        env.pop(st.target.id, None)
+                    nxt.append((env, conds))
+                    continue
+                scan(st, env, conds)
+                nxt.append((env, conds))
+            states = nxt
+            if len(states) > 64:
+                raise AnchorMissing("LiquidTag.__init__: too many paths to enumerate")
+        return states
 
-    run_block(init.node.body, {}, [])
+    run_block(init.node.body, [({}, [])])
     marked = [(p, c, ln) for p, c, ln in found if MARK in p or RAWMARK in p]
     if not marked:
         raise AnchorMissing("LiquidTag.__init__: no LIQUID_EXPR pattern built from comment_start_string found")
